@@ -10,6 +10,7 @@ import (
 	"fmt"
 	"math/big"
 	"sort"
+	"strings"
 	"time"
 
 	abci "github.com/cometbft/cometbft/abci/types"
@@ -56,9 +57,9 @@ type tssCase struct {
 
 type tssProfile struct {
 	wDes, wReset, wReq, wSig, wSigAll, wEnd, wAct, wOracle int
-	corrupt                                                 bool
-	internal                                                bool
-	gov                                                     bool // governance parameter changes (MaxDESize, FeePerSigner) during the history
+	corrupt                                                bool
+	internal                                               bool
+	gov                                                    bool // governance parameter changes (MaxDESize, FeePerSigner) during the history
 }
 
 func genTSSCase(rt *rapid.T, p tssProfile) tssCase {
@@ -90,6 +91,29 @@ func genTSSCase(rt *rapid.T, p tssProfile) tssCase {
 			c.Ops = append(c.Ops, tssOp{K: "sigall", S: 7, Mask: 0xff}, tssOp{K: "end", N: 1})
 			continue
 		}
+		if p.gov && gen.Chance(rt, "govscn", 1, 12) {
+			// constructed sequence: a signing is left to time out k times (one assignee idle each time, the others
+			// re-activated and re-stocked), then governance sets MaxSigningAttempt below / at / above the current
+			// attempt number, and the history runs on across further time-outs
+			k := gen.Range(rt, "govk", 1, 3)
+			c.Ops = append(c.Ops, tssOp{K: "desall", N: 3}, tssOp{K: "actall"}, tssOp{K: "end", N: 2},
+				tssOp{K: "req", M: 0, N: 6, Variant: "enough"}, tssOp{K: "end", N: 1})
+			for a := 0; a < k; a++ {
+				c.Ops = append(c.Ops, tssOp{K: "sigall", S: 7, Mask: uint32(gen.OneOf(rt, "gmask", 0xfe, 0xfd, 0x00))})
+				for j := uint64(0); j < c.Period; j++ {
+					c.Ops = append(c.Ops, tssOp{K: "end", N: 1})
+				}
+				c.Ops = append(c.Ops, tssOp{K: "actall"}, tssOp{K: "desall", N: 2})
+			}
+			c.Ops = append(c.Ops, tssOp{K: "gov", Variant: "maxattempt", N: gen.OneOf(rt, "govattn", 1, 1, 2, k, k+1, k+2)})
+			for j := uint64(0); j < 2*c.Period+5; j++ {
+				c.Ops = append(c.Ops, tssOp{K: "end", N: 1})
+				if j%2 == 1 {
+					c.Ops = append(c.Ops, tssOp{K: "actall"}, tssOp{K: "desall", N: 1})
+				}
+			}
+			continue
+		}
 		if p.gov && gen.Chance(rt, "gov", 1, 14) {
 			if gk := gen.Uniform(rt, "govkind", 3); gk == 0 {
 				c.Ops = append(c.Ops, tssOp{K: "gov", Variant: "maxde", N: gen.OneOf(rt, "govde", 1, 2, 3, int(c.MaxDE)-1, int(c.MaxDE)+2)})
@@ -101,6 +125,12 @@ func genTSSCase(rt *rapid.T, p tssProfile) tssCase {
 			continue
 		}
 		if p.internal && gen.Chance(rt, "internal", 1, 15) {
+			if gen.Chance(rt, "igov", 1, 3) {
+				// the same message executed from a governance proposal (sender = the module authority)
+				c.Ops = append(c.Ops, tssOp{K: "gov", Variant: "internal-" + gen.OneOf(rt, "ikind", "tunnel", "transition")},
+					tssOp{K: "end", N: 1}, tssOp{K: "end", N: 1}, tssOp{K: "end", N: 1}, tssOp{K: "end", N: 1})
+				continue
+			}
 			c.Ops = append(c.Ops, tssOp{K: "reqinternal", Variant: gen.OneOf(rt, "ikind", "tunnel", "transition")})
 			continue
 		}
@@ -162,8 +192,8 @@ type mSigning struct {
 	attempts  map[uint64]*mAttempt
 	success   int
 	failed    int
-	paid      bool        // user paid for it (current-group signing of a paying requester)
-	fee       sdk.Coins   // fee per signer recorded at request time
+	paid      bool      // user paid for it (current-group signing of a paying requester)
+	fee       sdk.Coins // fee per signer recorded at request time
 	retries   int
 	timeouts  int
 	sameBlock bool // aggregated in the block of its expiry height
@@ -197,33 +227,35 @@ type tssWorld struct {
 	signings map[uint64]*mSigning
 	sigCount uint64
 	// C13 model
-	escrow   sdk.Coins
-	expected map[string]sdk.Coins // expected balances of tracked accounts
-	maxDE         uint64 // current tss MaxDESize (changes through governance)
-	maxAttempt    uint64 // current tss MaxSigningAttempt (changes through governance)
-	proposals     uint64
-	paramChanges  int
-	seed          []byte // rolling seed of the block being observed
+	escrow          sdk.Coins
+	expected        map[string]sdk.Coins // expected balances of tracked accounts
+	maxDE           uint64               // current tss MaxDESize (changes through governance)
+	maxAttempt      uint64               // current tss MaxSigningAttempt (changes through governance)
+	proposals       uint64
+	paramChanges    int
+	attemptAboveMax bool   // governance lowered MaxSigningAttempt below the attempt number of a waiting signing
+	seed            []byte // rolling seed of the block being observed
 	// C11: what each signing was requested for
 	sigWant       map[uint64]c11Want
 	msgSeen       map[string]uint64
 	c11Checked    int
 	c11Oracle     int
 	internalTried int
+	internalGov   int // ... of which executed from a governance proposal
 	c09Checked    int
 	c09Choice     bool
 	// oracle source
-	oracleReqs    []uint64
-	oracleCount   uint64
-	stats         map[string]int64
-	resetPending  bool
-	failedCreate  bool
-	retryAfterTO  bool
-	successRetry  bool
-	corruptTried  int
-	corruptKinds  map[string]bool
-	boundaryReq   bool
-	payoutRetry   bool
+	oracleReqs   []uint64
+	oracleCount  uint64
+	stats        map[string]int64
+	resetPending bool
+	failedCreate bool
+	retryAfterTO bool
+	successRetry bool
+	corruptTried int
+	corruptKinds map[string]bool
+	boundaryReq  bool
+	payoutRetry  bool
 }
 
 func (w *tssWorld) fail(prop bool, sig, format string, a ...any) {
@@ -252,8 +284,8 @@ func newTSSWorld(c tssCase, obs tssObs, v *pbt.Verdict) *tssWorld {
 	w.maxAttempt = c.MaxAttempt
 	w.escrow = sdk.NewCoins()
 	cfg := sim.Config{NumAccounts: c.N + 3, MintOff: true, GovVoting: 3 * time.Second,
-		Balance:    sdk.NewCoins(sdk.NewInt64Coin("uband", 1_000_000_000), sdk.NewInt64Coin("uatom", 1_000_000_000)),
-		Validators: []sim.ValSpec{{Tokens: 10_000_000}, {Tokens: 5_000_000}},
+		Balance:     sdk.NewCoins(sdk.NewInt64Coin("uband", 1_000_000_000), sdk.NewInt64Coin("uatom", 1_000_000_000)),
+		Validators:  []sim.ValSpec{{Tokens: 10_000_000}, {Tokens: 5_000_000}},
 		DataSources: []sim.DSSpec{{Exec: []byte("ds-one-executable-bytes-0123456789abcdef"), Treasury: 0}},
 		Scripts:     [][]byte{sim.ScriptAsk([]int{1}, "oracle-result")},
 	}
@@ -590,6 +622,20 @@ func (w *tssWorld) run() {
 					tp.MaxSigningAttempt = uint64(op.N)
 				}
 				pmsg = &tsstypes.MsgUpdateParams{Authority: sim.GovAuthority(), Params: tp}
+			} else if strings.HasPrefix(op.Variant, "internal-") {
+				var content tsstypes.Content
+				if op.Variant == "internal-tunnel" {
+					content = tunneltypes.NewTunnelSignatureOrder(1, []feedstypes.Price{{Status: feedstypes.PRICE_STATUS_AVAILABLE, SignalID: "S1", Price: 5, Timestamp: 1}}, 1, feedstypes.ENCODER_FIXED_POINT_ABI)
+				} else {
+					content = bandtsstypes.NewGroupTransitionSignatureOrder(w.grp.PubKey, w.ch.Time.Add(time.Hour))
+				}
+				m, merr := bandtsstypes.NewMsgRequestSignature(content, w.feeLimitFor("enough"), sim.GovAuthority())
+				if merr != nil {
+					continue
+				}
+				pmsg = m
+				w.internalTried++
+				w.internalGov++
 			} else {
 				bp := w.ch.App.BandtssKeeper.GetParams(ctx)
 				bp.FeePerSigner = coinsOf([][]int64{{0, 0}, {4, 0}, {25, 0}, {3, 2}}[op.N%4])
@@ -947,7 +993,10 @@ func (w *tssWorld) observe(block []*builtTx, res *sim.BlockResult) bool {
 	// passed in this block already apply to this block's end-block work and to everything after it
 	w.refreshParams()
 	// expectations for the end block (before looking at its events)
-	type exp struct{ success, timeout bool; idle []string }
+	type exp struct {
+		success, timeout bool
+		idle             []string
+	}
 	expect := map[uint64]*exp{}
 	for id, s := range w.signings {
 		if s.status != tsstypes.SIGNING_STATUS_WAITING {
@@ -1182,6 +1231,12 @@ func (w *tssWorld) finish() {
 	for k, n := range w.stats {
 		v.Count(k, n)
 	}
+	if w.internalGov > 0 {
+		v.Class("internal-content-via-governance")
+	}
+	if w.attemptAboveMax {
+		v.Class("max-attempt-lowered-below-current-attempt")
+	}
 	if w.retryAfterTO {
 		v.Class("retry-after-timeout")
 	}
@@ -1213,7 +1268,6 @@ func refVerifyGroupSig(pub tss.Point, msg []byte, sig tss.Signature) error {
 	return ref.TSSVerifyGroupSignature(pub, msg, sig)
 }
 
-
 // checkSignedMessage parses Signing.Message back (reference layout from the statement) and compares it with the
 // request and the on-chain data it was made for.
 func (w *tssWorld) checkSignedMessage(id uint64, sg tsstypes.Signing, want c11Want) {
@@ -1225,6 +1279,11 @@ func (w *tssWorld) checkSignedMessage(id uint64, sg tsstypes.Signing, want c11Wa
 	ps, err := ref.ParseSigningMessage(sg.Message)
 	if err != nil {
 		w.fail(true, "C11/message-layout", "signing %d: %v", id, err)
+		return
+	}
+	if r0, k0, _, e0 := ref.SplitContent(ps.Content); e0 == nil && (r0 == ref.RouteTunnel || r0 == ref.RouteBandtss) {
+		// this world has no tunnel and no group transition: nothing but a user's (or a proposal's) MsgRequestSignature can have asked for it
+		w.fail(true, "C11/internal-content-signed", "signing %d was created over module-internal content %s/%s although no module asked for it", id, r0, k0)
 		return
 	}
 	orig := ref.EncodeDirectOriginator(w.ch.Cfg.ChainID, want.requester, "")
@@ -1268,7 +1327,6 @@ func (w *tssWorld) checkSignedMessage(id uint64, sg tsstypes.Signing, want c11Wa
 	w.c11Oracle++
 }
 
-
 // refreshParams reads the governance-controlled parameters the model depends on (configuration, not behaviour).
 func (w *tssWorld) refreshParams() {
 	ctx := w.ch.Ctx()
@@ -1277,6 +1335,11 @@ func (w *tssWorld) refreshParams() {
 		w.paramChanges++
 	}
 	if m := w.ch.App.TSSKeeper.GetParams(ctx).MaxSigningAttempt; m != w.maxAttempt {
+		for _, s := range w.signings {
+			if s.status == tsstypes.SIGNING_STATUS_WAITING && s.attempt > m {
+				w.attemptAboveMax = true
+			}
+		}
 		w.maxAttempt = m
 		w.paramChanges++
 	}
